@@ -22,6 +22,7 @@
     Task half.  Model: DoneCb/Task.v (sequential); every operation sequence = every
     completion order; hypothesis [twf]: no task is registered again after it ended. *)
 From NL Require Import DoneCb.Model DoneCb.Safety DoneCb.Inv DoneCb.Main
+                       DoneCb.Live DoneCb.Term DoneCb.Progress
                        DoneCb.Task DoneCb.TaskProofs.
 
 (** tie: the model's programs are exactly the shared accesses of the regenerated skeleton *)
@@ -75,6 +76,86 @@ Theorem C18_lock_excludes : forall raises ls t,
   let s := run raises ls in
   reg_locked (regs s t) -> ~ mon_locked (m_pc s) /\ forall t', reg_locked (regs s t') -> t' = t.
 Proof. exact lock_excludes. Qed.
+
+(** ---- progress ("every trace that starts is eventually reported as ended").
+
+    [unfinished s w]: thread w of the program has started its method and not finished it (the
+    monitor thread has not ended / close() was called and has not returned / thread t is inside
+    register()).  [enabled s w]: w's next access can be executed now.
+    Legitimate waits, and the only ones: (a) a thread about to acquire the lock while it is held --
+    then the holder is inside its critical section, unfinished and ENABLED (it can always proceed
+    to its release); (b) close() in join() while the monitor thread has not ended -- then the
+    monitor is itself enabled or in case (a).  The monitor thread loops until close() is called,
+    so it is "unfinished" by design; that is not a deadlock. *)
+Theorem C18_no_deadlock : forall raises ls w,
+  let s := run raises ls in
+  unfinished s w ->
+    enabled raises s w
+    \/ (at_acquire s w /\ exists h, lock s = Some h /\ h <> w /\ unfinished s h /\ enabled raises s h)
+    \/ (w = Closer /\ closer s = CJoining /\ unfinished s Mon).
+Proof. exact no_deadlock. Qed.
+
+(** hence in every reachable state with an unfinished thread, some unfinished thread has an enabled
+    step, and that step changes the state: no state in which every unfinished thread is blocked *)
+Theorem C18_no_deadlock_some : forall raises ls,
+  let s := run raises ls in
+  (exists w, unfinished s w) ->
+  exists w, unfinished s w /\ enabled raises s w /\ fst (step raises s (Step w)) <> s.
+Proof. exact no_deadlock_some. Qed.
+
+(** the termination measure [mu] (DoneCb/Term.v: remaining accesses of the monitor's current
+    iteration + one more iteration over the elements its scan has passed as alive + remaining
+    accesses of close()) strictly decreases on every effective step, once every thread that
+    started has ended ([all_ended]) and `_closed` is set *)
+Theorem C18_step_decreases : forall raises g s w,
+  Inv g s -> Inv2 g s -> all_ended s -> closed s = true -> enabled raises s w ->
+  mu (fst (step raises s (Step w))) < mu s.
+Proof. exact step_decreases. Qed.
+
+(** under ANY scheduler: after the threads have ended and `_closed` is set, a continuation of Step
+    labels contains at most [mu] effective steps (no fairness assumption) ... *)
+Theorem C18_bounded_after_end : forall raises ls ls',
+  steps_only ls' -> all_ended (run raises ls) -> closed (run raises ls) = true ->
+  effective raises (run raises ls) ls' <= mu (run raises ls).
+Proof. exact bounded_after_end. Qed.
+
+(** ... and when nothing is enabled any more, close() has returned: every maximal schedule is
+    finite and ends with close() returned *)
+Theorem C18_stuck_means_returned : forall raises ls ls',
+  steps_only ls' -> closer (run raises ls) <> CNone ->
+  (forall w, ~ enabled raises (run raises (ls ++ ls')) w) ->
+  exists e, closer (run raises (ls ++ ls')) = CDone e.
+Proof. exact stuck_means_returned. Qed.
+
+(** close() can always return: from every reachable state in which close() has been called and
+    every thread that started has ended, SOME continuation of Step labels makes close() return, and
+    then every thread registered before close() was called has been called back exactly once.
+    (Before `self._closed = True` is executed the monitor may loop any number of times, so
+    "eventually" needs the scheduler to run the <= 3 remaining lock-free accesses of close():
+    weak fairness towards the closing thread is the ONLY fairness assumption; after that
+    C18_bounded_after_end needs none.) *)
+Theorem C18_close_can_return : forall raises ls,
+  closer (run raises ls) <> CNone -> all_ended (run raises ls) ->
+  exists ls', steps_only ls' /\ close_results raises (ls ++ ls') <> [] /\
+    forall t, In t (registered_before_close raises ls) ->
+      count_occ Nat.eq_dec (called raises (ls ++ ls')) t = 1 /\ In t (ended raises (ls ++ ls')).
+Proof. exact close_can_return. Qed.
+
+(** non-vacuity of the progress hypotheses: the former lost-update schedule cut where close() is
+    called (threads 1, 2 ended) and where close() waits in join(): measure 20, the remaining 19
+    steps are all effective, close() returns; close() itself is legitimately blocked there *)
+Example C18_example_progress :
+  (all_ended (run nobody pre_close) /\ all_ended (run nobody pre_closed)) /\
+  steps_only rest_closed /\
+  closer (run nobody pre_close) = CLoad /\ closed (run nobody pre_close) = false
+  /\ closer (run nobody pre_closed) = CJoining /\ closed (run nobody pre_closed) = true
+  /\ mu (run nobody pre_closed) = 20
+  /\ effective nobody (run nobody pre_closed) rest_closed = 19
+  /\ pre_closed ++ rest_closed = w_lost_update
+  /\ close_results nobody w_lost_update = [None]
+  /\ unfinished (run nobody pre_closed) Closer /\ ~ enabled nobody (run nobody pre_closed) Closer
+  /\ enabled nobody (run nobody pre_closed) Mon.
+Proof. exact (conj all_ended_example (conj steps_only_rest example_progress)). Qed.
 
 (** task half: exactly once for every task registered and ended, for every completion order *)
 Theorem C18_task_exactly_once : forall raises os, twf os ->
@@ -130,6 +211,13 @@ Print Assumptions C18_close_after_monitor.
 Print Assumptions C18_exception_reraised.
 Print Assumptions C18_no_iteration_error.
 Print Assumptions C18_lock_excludes.
+Print Assumptions C18_no_deadlock.
+Print Assumptions C18_no_deadlock_some.
+Print Assumptions C18_step_decreases.
+Print Assumptions C18_bounded_after_end.
+Print Assumptions C18_stuck_means_returned.
+Print Assumptions C18_close_can_return.
+Print Assumptions C18_example_progress.
 Print Assumptions C18_task_exactly_once.
 Print Assumptions C18_task_close_waits.
 Print Assumptions C18_example_former_witnesses.
